@@ -798,6 +798,9 @@ func runScenario(sc scenario, out sink, rnd func(int) int) (fails []fail) {
 		}
 	}
 
+	// -- sequences of imports into ONE cache: a later import replaces what an earlier one filed
+	fails = append(fails, oneCacheSequences(sc, out, rnd, claim, secret, wantSid, obsA, A)...)
+
 	// -- single-character corruptions of the secret, every position x every class of change:
 	// the importer must be refused or hold exactly HKDF(the corrupted secret), never the minter's key
 	npos := len(secret)
@@ -908,6 +911,175 @@ func runScenario(sc scenario, out sink, rnd func(int) int) (fails []fail) {
 			}
 			out.Count("corrupt-handshakes")
 		}
+	}
+	return
+}
+
+type seqStep struct {
+	ft    bool
+	claim string
+	io    impOpts
+}
+
+func seqTerm(steps []seqStep) string {
+	ts := make([]string, len(steps))
+	for i, st := range steps {
+		ts[i] = "(" + core.Bool(st.ft) + ", " + hx(st.claim) + ", " + st.io.term() + ")"
+	}
+	return core.List(ts)
+}
+
+// runSeq imports the steps into one fresh cache and returns the cache, the entry filed under id
+// (or !ok), the CSeq case, and the clock window.
+func runSeq(out sink, desc interface{}, steps []seqStep, id string, secrets ...string) (*security.SessionCache, entryObs, bool) {
+	S := security.NewSessionCache()
+	lo := time.Now().UnixNano()
+	for _, st := range steps {
+		if st.ft {
+			_, _ = security.ImportFileTransferSession(S, st.claim, st.io.real())
+		} else {
+			_, _ = security.ImportClaimSession(S, st.claim, st.io.real())
+		}
+	}
+	hi := time.Now().UnixNano()
+	e, ok := security.VerifC16Entry(S, id)
+	head := fmt.Sprintf("(CSeq %s %s %s %s ", seqTerm(steps), hx(id), core.Z(lo), core.Z(hi))
+	if !ok {
+		out.AddCase(wrap(head+"None)"), desc)
+		return S, entryObs{}, false
+	}
+	obs, err := observeEntry(e)
+	if err != nil {
+		return S, entryObs{}, false
+	}
+	out.AddCase(wrap(head+"(Some "+obs.term(secrets...)+"))"), desc)
+	out.Count("one-cache-sequences")
+	return S, obs, true
+}
+
+func sameSession(a, b entryObs, withExpiry bool) string {
+	if !bytes.Equal(a.Key, b.Key) || a.Proto != b.Proto {
+		return "key"
+	}
+	for _, n := range []string{"Encryption", "Integrity", "CryptoMethods", "ValidCommands", "SessionExpires", "RemoteVersion", "Sid"} {
+		if pstr(a.Policy, n) != pstr(b.Policy, n) {
+			return "policy " + n
+		}
+	}
+	if withExpiry && (a.ExpZero != b.ExpZero || a.ExpSecs != b.ExpSecs || a.ExpNsec != b.ExpNsec) {
+		return "expiry"
+	}
+	return ""
+}
+
+// oneCacheSequences: the importing cache has a history.  (a) a corrupted-secret copy first, then
+// the genuine claim; (b) the genuine claim twice; (c) the claim, then a re-issue of the same
+// session id (new secret, later expiry); (d) the same for the file-transfer session; (e) a mint
+// into a cache that already holds the id.  After each, the entry under the id must be the one
+// derived from the LAST text, must agree with its minter, and must resume with it.
+func oneCacheSequences(sc scenario, out sink, rnd func(int) int, claim, secret, sid string, obsA entryObs, A *security.SessionCache) (fails []fail) {
+	bad := func(key, f string, a ...interface{}) { fails = append(fails, fail{key, fmt.Sprintf(f, a...)}) }
+	o := sc.Opts
+	ping := "ping-" + secret[:4]
+	base := len(claim) - len(secret)
+	// the corrupted copy: a case flip if the secret has a letter, else another digit
+	pos := rnd(len(secret))
+	for i := 0; i < len(secret); i++ {
+		if c := secret[(pos+i)%len(secret)]; c >= 'a' && c <= 'f' {
+			pos = (pos + i) % len(secret)
+			break
+		}
+	}
+	cb := []byte(claim)
+	cb[base+pos] = variants(secret[pos], rnd)[rnd(2)%len(variants(secret[pos], rnd))].b
+	corrupted := string(cb)
+	csecret := corrupted[base:]
+	absExpiry := o.LifeNs > 0 // otherwise the importer's (zero) fallback applies: zero on both sides
+
+	// (a) corrupted, then genuine
+	S, obs, ok := runSeq(out, sc, []seqStep{{false, corrupted, impOpts{}}, {false, claim, impOpts{}}}, sid, secret, csecret)
+	out.OracleCheck()
+	if !ok {
+		bad("seq-missing", "after import(corrupted) and import(genuine) the cache has no entry for %q", sid)
+	} else if d := sameSession(obs, obsA, true); d != "" {
+		bad("seq-stale-after-corrupted", "import(corrupted secret) then import(genuine claim) into one cache: the entry differs from the minter's in %s (a stale entry survived)", d)
+	} else if sc.Hs {
+		out.OracleCheck()
+		if r := handshake(S, A, sid, 443, ping); !r.works(ping) {
+			bad("seq-stale-after-corrupted", "after import(corrupted) then import(genuine) the importer cannot resume with the minter: %+v", r)
+		}
+		out.OracleCheck()
+		if r := handshake(A, S, sid, 444, ping); !r.works(ping) {
+			bad("seq-stale-after-corrupted", "after import(corrupted) then import(genuine) the minter cannot resume with the importer: %+v", r)
+		}
+	}
+	// and the other order: genuine, then corrupted: the entry must be the corrupted one's (not the minter's key)
+	_, obs, ok = runSeq(out, sc, []seqStep{{false, claim, impOpts{}}, {false, corrupted, impOpts{}}}, sid, csecret, secret)
+	out.OracleCheck()
+	if ok && bytes.Equal(obs.Key, obsA.Key) {
+		if _, _, ck, cok := specSplit(corrupted); cok && ck != secret {
+			bad("seq-last-import-ignored", "import(genuine) then import(corrupted secret): the cache still holds the first key")
+		}
+	}
+
+	// (b) twice the same
+	_, obs2, ok2 := runSeq(out, sc, []seqStep{{false, claim, sc.Imp}, {false, claim, sc.Imp}}, sid, secret)
+	out.OracleCheck()
+	if !ok2 {
+		bad("seq-missing", "after importing the same claim twice the cache has no entry for %q", sid)
+	} else if d := sameSession(obs2, obsA, absExpiry || sc.Imp.DurNs <= 0); d != "" {
+		bad("seq-not-idempotent", "importing the same claim twice: the entry differs from the minter's in %s", d)
+	}
+
+	// (c) re-issue of the same session id: new secret, later expiry
+	o2 := o
+	if o2.LifeNs > 0 {
+		o2.LifeNs += int64(2 * time.Hour)
+	} else {
+		o2.LifeNs = int64(3 * time.Hour)
+	}
+	A2 := security.NewSessionCache()
+	mc2, err := security.MintClaimSession(A2, o2.real())
+	if err == nil && mc2.SessionID() == sid {
+		claim2 := mc2.ClaimID()
+		_, _, secret2, _ := specSplit(claim2)
+		eA2, okA2 := security.VerifC16Entry(A2, sid)
+		if okA2 {
+			obsA2, _ := observeEntry(eA2)
+			S3, obs3, ok3 := runSeq(out, sc, []seqStep{{false, claim, impOpts{}}, {false, claim2, impOpts{}}}, sid, secret2, secret)
+			out.OracleCheck()
+			if !ok3 {
+				bad("seq-missing", "after import(claim) and import(re-issued claim) the cache has no entry for %q", sid)
+			} else if d := sameSession(obs3, obsA2, true); d != "" {
+				bad("seq-stale-after-reissue", "import(claim) then import(re-issue with a new secret and a later SessionExpires): the entry differs from the re-issuing minter's in %s (expiry %d vs %d)", d, obs3.ExpSecs, obsA2.ExpSecs)
+			} else if sc.Hs {
+				out.OracleCheck()
+				if r := handshake(S3, A2, sid, 443, ping); !r.works(ping) {
+					bad("seq-stale-after-reissue", "after a re-issue the importer cannot resume with the re-issuing minter: %+v", r)
+				}
+			}
+			// (e) a mint into a cache that already holds the id (the importer of the first claim re-mints)
+			S5 := security.NewSessionCache()
+			_, _ = security.ImportClaimSession(S5, claim, security.ClaimSessionOptions{})
+			mc5, err5 := security.MintClaimSession(S5, o2.real())
+			out.OracleCheck()
+			if err5 == nil {
+				_, _, secret5, _ := specSplit(mc5.ClaimID())
+				if e5, ok5 := security.VerifC16Entry(S5, sid); !ok5 || e5.KeyInfo() == nil || !bytes.Equal(e5.KeyInfo().Data, specHKDF([]byte(secret5), 32)) {
+					bad("seq-mint-stale", "MintClaimSession into a cache already holding %q did not file the newly minted session", sid)
+				}
+			}
+		}
+	}
+
+	// (d) file-transfer session: corrupted then genuine
+	ftid := "filetrans." + sid
+	_, obs4, ok4 := runSeq(out, sc, []seqStep{{true, corrupted, impOpts{}}, {true, claim, impOpts{}}}, ftid, secret, csecret)
+	out.OracleCheck()
+	if !ok4 {
+		bad("seq-missing", "after two file-transfer imports the cache has no entry for %q", ftid)
+	} else if !bytes.Equal(obs4.Key, obsA.Key) {
+		bad("seq-ft-stale", "ImportFileTransferSession(corrupted) then (genuine) into one cache: the key is not the claim's key")
 	}
 	return
 }
